@@ -114,3 +114,6 @@ Proof.
   - intros [y [Hy He]]. apply str_eqb_eq in He. subst. exact Hy.
   - intros H. exists x. split; [exact H | apply str_eqb_refl].
 Qed.
+
+(* QArith opens Q_scope globally; keep numerals in nat unless a file asks otherwise *)
+Close Scope Q_scope.
